@@ -24,6 +24,7 @@ rerun requests are not sent when the status just read forbids them.
 from __future__ import annotations
 
 import collections
+import contextlib
 import glob
 import itertools
 import json
@@ -696,55 +697,150 @@ class FakeClock:
         self.now += s
 
 
-def check_throttle(chk, world, n):
+@contextlib.contextmanager
+def clocked(world):
+    """the real clock of remote_job.py replaced by a scripted one, the shipped delay of 1 s in force"""
     RJ = world.RemoteJob
     saved_time, saved_delay = world.rjm.time, RJ.STATUS_REFRESH_DELAY
     clock = FakeClock()
-    rng = chk.rng
     try:
         world.rjm.time = clock
-        RJ.STATUS_REFRESH_DELAY = 1          # the shipped value; times below are multiples of 0.25 s (exact floats)
-        for _ in range(n):
-            clock.now = 0.0
-            job = RJ({"payload": {}}, world.handler, "verif")
-            world.begin(1, [], OK)
-            job.execute_async()
-            reads, outs = [], []
-            q = 0
-            for i in range(rng.randint(1, 14)):
-                q += rng.choice([0, 1, 3, 4, 4, 5, 12])
-                r = rand_status_answer(rng, rng.random() < 0.3)
-                clock.now = q / 4.0
-                world.begin(i + 2, [r], None)
-                try:
-                    res = "st:" + job.status()
-                except Exception as e:  # noqa: BLE001
-                    res = exc_str(world, e, "p")
-                outs.append(f"{res}|{cid(job)}|{shown(job)}|{','.join(world.calls)}")
-                reads.append([q, r])
-                chk.branch("throttled" if not world.calls and shown(job) not in FINAL_NAMES else "due-read")
-            rep = chk.lean.ask({"fixed": True, "delay": 4, "clock": reads})
-            chk.evaluations += 1
-            chk.count("source", "throttle")
-            if rep.get("outs") != outs:
-                # direct oracle: a read inside the delay must not reach the server
-                prev, bad = 0, None
-                for (qq, r), o in zip(reads, outs):
-                    sent = o.split("|")[3] != ""
-                    if sent and not (qq - prev > 4):
-                        bad = f"status request sent {0.25 * (qq - prev)} s after the previous refresh (delay 1 s)"
-                        break
-                    if sent:
-                        prev = qq
-                if bad:
-                    chk.fail("violation", "throttle-not-respected", bad, {"clock": reads, "real": outs})
-                else:
-                    chk.fail("broken", "throttle-model-vs-code",
-                             "clocked model and real code disagree", {"clock": reads, "real": outs, "model": rep})
-                break
+        RJ.STATUS_REFRESH_DELAY = 1          # the shipped value; times are multiples of 0.25 s (exact floats)
+        yield clock
     finally:
         world.rjm.time = saved_time
         RJ.STATUS_REFRESH_DELAY = saved_delay
+
+
+DELAY_Q = 4       # the shipped delay (1 s) in quarter seconds
+
+
+def run_clock(world, clock, reads):
+    """execute_async() at time 0, then status() at the scripted times (quarter seconds) -> outs"""
+    clock.now = 0.0
+    job = world.RemoteJob({"payload": {}}, world.handler, "verif")
+    world.begin(1, [], OK)
+    job.execute_async()
+    outs = []
+    for i, (q, r) in enumerate(reads):
+        clock.now = q / 4.0
+        world.begin(i + 2, [r], None)
+        try:
+            res = "st:" + job.status()
+        except Exception as e:  # noqa: BLE001
+            res = exc_str(world, e, "p")
+        outs.append(f"{res}|{cid(job)}|{shown(job)}|{','.join(world.calls)}")
+    return outs
+
+
+def clock_oracles(reads, outs):
+    """the property statement on the clocked trace, independent of the Lean driver: no status request after a
+    final status was shown, and the streak law over the requests that did reach the server.  (Which reads reach
+    the server is the throttle: not part of the property statement, compared with the clocked model only.)"""
+    hits = []
+    fails, final = 0, False
+    for k, ((q, r), o) in enumerate(zip(reads, outs), 2):
+        res, _, sh, calls = o.split("|")
+        sent = calls != ""
+        if sent and final:
+            hits.append(("polls-after-final", k, f"read {k}: status request sent after the job showed a final status"))
+        if sent:
+            if r[0] == "s":
+                fails = 0
+            else:
+                fails += 1
+                fatal = r[0] == "h" and r[1] not in TRANSIENT
+                must_raise = fails > MAX_ABSORBED or fatal
+                want = "exc:ConnectionError" if r[0] == "c" else f"exc:HTTPError:{r[1]}"
+                if must_raise and res != want:
+                    if fatal and fails <= MAX_ABSORBED:
+                        hits.append(("fatal-http-absorbed", k,
+                                     f"read {k}: HTTP {r[1]} on the status request was not raised"))
+                    else:
+                        hits.append(("streak-absorbed-after-max", k,
+                                     f"read {k}: consecutive failed status request number {fails} was absorbed "
+                                     f"instead of raised (result {res})"))
+                elif not must_raise and res.startswith("exc:"):
+                    hits.append(("transient-not-absorbed", k,
+                                 f"read {k}: consecutive transient failure number {fails} was raised ({res})"))
+        if sh in FINAL_NAMES:
+            final = True
+    return hits
+
+
+def judge_clock(chk, world, clock, reads):
+    outs = run_clock(world, clock, reads)
+    hits = clock_oracles(reads, outs)
+    rep = chk.lean.ask({"fixed": True, "delay": DELAY_Q, "clock": reads})
+    if hits:
+        sig, k, what = hits[0]
+        return ("violation", sig, what, {"clock": reads, "real": outs, "model": rep.get("outs")}), outs
+    if "err" in rep:
+        return ("broken", "driver-rejects", f"Lean driver rejected the clocked reads: {rep['err']}",
+                {"clock": reads}), outs
+    if rep["outs"] != outs:
+        i = next(i for i, (x, y) in enumerate(zip(outs, rep["outs"])) if x != y)
+        return ("broken", "throttle-model-vs-code",
+                f"read {i + 2}: real code gives {outs[i]!r}, clocked model gives {rep['outs'][i]!r}; "
+                f"no direct oracle fails",
+                {"clock": reads, "real": outs, "model": rep["outs"]}), outs
+    return None, outs
+
+
+def shrink_clock(chk, world, clock, reads, sig):
+    cur = list(reads)
+    budget = 200
+    changed = True
+    while changed and budget > 0:
+        changed = False
+        for i in range(len(cur)):
+            cand = cur[:i] + cur[i + 1:]
+            if not cand:
+                continue
+            budget -= 1
+            r, _ = judge_clock(chk, world, clock, cand)
+            if r is not None and r[1] == sig:
+                cur = cand
+                changed = True
+                break
+    return cur
+
+
+def report_clock(chk, world, clock, r):
+    kind, sig, what, rep = r
+    seen = chk.extra.setdefault("_reported", set())
+    if (kind, sig) in seen:
+        return
+    seen.add((kind, sig))
+    small = shrink_clock(chk, world, clock, rep["clock"], sig)
+    r2, _ = judge_clock(chk, world, clock, small)
+    if r2 is not None and r2[1] == sig:
+        kind, sig, what, rep = r2
+    chk.fail(kind, sig, what, rep)
+
+
+def gen_clock_reads(rng):
+    reads = []
+    q = 0
+    for _ in range(rng.randint(1, 14)):
+        q += rng.choice([0, 1, 3, 4, 4, 5, 5, 12])
+        reads.append([q, rand_status_answer(rng, rng.random() < 0.45)])
+    return reads
+
+
+def check_throttle(chk, world, n):
+    rng = chk.rng
+    with clocked(world) as clock:
+        for _ in range(n):
+            reads = gen_clock_reads(rng)
+            r, outs = judge_clock(chk, world, clock, reads)
+            chk.evaluations += 1
+            chk.count("source", "throttle")
+            for o in outs:
+                chk.branch("throttled" if o.split("|")[3] == "" and o.split("|")[2] not in FINAL_NAMES
+                           else "due-read")
+            if r is not None:
+                report_clock(chk, world, clock, r)
 
 
 # ------------------------------------------------------------------------------------------------
@@ -804,9 +900,8 @@ def run(chk: core.Check):
     # 1. corpus
     for ops in load_corpus():
         handle(chk, world, ops, "corpus")
-    # 2. whitelist, throttle
+    # 2. whitelist
     probe_whitelist(chk, world)
-    check_throttle(chk, world, chk.pick(150, 1500))
     # 3. random long histories
     n = chk.pick(1500, 12000)
     max_len = chk.pick(40, 200)
@@ -844,6 +939,9 @@ def run(chk: core.Check):
         if r is None:
             r = ("broken", "unstable", f"worker reported {rec[1]} ({rec[2]}) but it does not reproduce", {"ops": rec[3]})
         report(chk, world, r)
+    # 6. the throttle, against the clocked model (last, so that a defect both parts see is reported with a
+    #    history replay)
+    check_throttle(chk, world, chk.pick(300, 3000))
     chk.extra.pop("_reported", None)
 
 
@@ -853,7 +951,12 @@ def replay(chk, data):
     chk.rule = "replay of one stored history"
     rep = data["replay"]
     if "clock" in rep:
-        chk.fail("broken", "replay", "clock replays are not supported; rerun the check", rep)
+        with clocked(world) as clock:
+            r, _ = judge_clock(chk, world, clock, rep["clock"])
+            chk.evaluations += 1
+            if r is not None:
+                report_clock(chk, world, clock, r)
+        chk.extra.pop("_reported", None)
         return
     handle(chk, world, rep["ops"], "replay")
     chk.extra.pop("_reported", None)
